@@ -15,5 +15,7 @@ CONSTANTS
   PreCheckClosed = TRUE
   NilPacketSock = TRUE
   CloseWaits = FALSE
+  ErrAware = TRUE
+  AcceptErrors = 1
 INVARIANTS NoBadEvent CleanAfterAllClosed
 VIEW View
